@@ -132,6 +132,9 @@ def entries():
     add("RandomPermutation", "transform", lambda: TR.RandomPermutation(5), _rn(5), flags={"inv", "ctor_random", "noparams"})
     add("ReversePermutation/dim2", "transform", lambda: TR.ReversePermutation(3, dim=2), _rn(2, 3), flags={"inv", "noparams"})
     add("SqueezeTransform", "transform", lambda: TR.SqueezeTransform(2), _rn(2, 4, 2), flags={"inv", "image", "noparams"}, y=_rn(8, 2, 1))
+    add("SqueezeTransform/3", "transform", lambda: TR.SqueezeTransform(3), _rn(2, 3, 6), flags={"inv", "image", "noparams"}, y=_rn(18, 1, 2))
+    add("HouseholderSequence/5", "transform", lambda: TR.HouseholderSequence(3, 5), _rn(3), flags={"inv", "linear"})
+    add("QRLinear/many-householder", "transform", lambda: TR.QRLinear(2, num_householder=7), _rn(2), flags={"inv", "linear"})
     add("Composite", "transform", lambda: TR.CompositeTransform([TR.LULinear(3, identity_init=False), TR.ReversePermutation(3), TR.MaskedAffineAutoregressiveTransform(3, 8, num_blocks=1), TR.RandomPermutation(3)]), _rn(3), flags={"inv", "ctor_random"})
     add("Inverse(LU)", "transform", lambda: TR.InverseTransform(TR.LULinear(3, identity_init=False)), _rn(3), flags={"inv"})
 
@@ -160,6 +163,8 @@ def entries():
     add("CauchyCDFInverse", "transform", lambda: NL.CauchyCDFInverse(), _ru(3), flags={"inv", "bounded01", "noparams"}, y=_rn(3))
     add("PointwiseAffine/tensor", "transform", lambda: TR.PointwiseAffineTransform(shift=torch.tensor([0.5, -1.0, 2.0]), scale=torch.tensor([2.0, -0.5, 3.0])), _rn(3), flags={"inv", "noparams"})
     add("PointwiseAffine/scalar-image", "transform", lambda: TR.PointwiseAffineTransform(shift=0.5, scale=-2.0), _rn(2, 3, 2), flags={"inv", "noparams", "image"})
+    add("GatedLinearUnit", "transform", lambda: NL.GatedLinearUnit(), _rn(3), _rn(3), flags={"inv", "noparams"})
+    add("GatedLinearUnit/row-gate", "transform", lambda: NL.GatedLinearUnit(), _rn(3), _rn(1), flags={"inv", "noparams"})
     add("Identity", "transform", lambda: TR.IdentityTransform(), _rn(3), flags={"inv", "noparams"})
     for nm, cls in [("Linear", NL.PiecewiseLinearCDF), ("Quadratic", NL.PiecewiseQuadraticCDF), ("Cubic", NL.PiecewiseCubicCDF), ("RQ", NL.PiecewiseRationalQuadraticCDF)]:
         add("Piecewise%sCDF" % nm, "transform", (lambda cls=cls: cls([3], num_bins=4)), _ru(3), flags={"inv", "bounded01", "spline"})
